@@ -14,6 +14,7 @@
 #include <tbox/terminal/impl/service/tcp_rpc.h>
 #include <tbox/network/tcp_server.h>
 #include <sys/socket.h>
+#include <sys/stat.h>
 #include <sys/un.h>
 #include <map>
 #include <set>
@@ -33,7 +34,7 @@ static std::string show(const Case &c) { std::string o; for (auto &g : c.segs) o
 // what the input looks like (names a crash): the first telnet construct in the concatenated bytes
 static std::string shape_of(const std::string &fe, const Case &c) {
   std::string b; for (auto &g : c.segs) b += g;
-  for (auto &g : c.segs) { size_t p = g.find("exit"), q = p == std::string::npos ? p : g.find("exit", p + 4); if (q != std::string::npos) return "double-exit-in-one-segment"; }
+  for (auto &g : c.segs) { size_t p = g.find("exit"); if (p != std::string::npos && (g.find("exit", p + 4) != std::string::npos || g.find("!", p) != std::string::npos)) return "double-exit-in-one-segment"; }
   if (b.find("exit") != std::string::npos || b.find("quit") != std::string::npos) return "exit-command";
   std::string pre = fe == "telnetd" ? "telnet-" : "tcprpc-raw-";
   for (size_t i = 0; i + 1 < b.size(); i++) if ((uint8_t)b[i] == IAC) {
@@ -77,45 +78,48 @@ static const std::string RESYNC = std::string("\0\0", 2) + "\xff\xf0";   // clos
 static std::string run_case(const Case &c) {
   if (!g_loop) setup();
   g_case_no++;
-  std::string shape = shape_of(g_fe, c), viol, pending; bool direct = g_mode == "direct";
+  std::string shape = shape_of(g_fe, c), viol, pending, reply; bool direct = g_mode == "direct", gone = false;
   int fd = socket(AF_UNIX, SOCK_STREAM | SOCK_NONBLOCK | SOCK_CLOEXEC, 0);
   struct sockaddr_un sa; memset(&sa, 0, sizeof sa); sa.sun_family = AF_UNIX; strncpy(sa.sun_path, g_path.c_str(), sizeof sa.sun_path - 1);
   if (fd < 0 || connect(fd, (struct sockaddr *)&sa, sizeof sa) != 0) { g_worker.poisoned = true; if (fd >= 0) close(fd); return "harness-cannot-connect errno=" + std::to_string(errno); }
-  try {
-    pump(g_loop);                                   // accept, session creation, greeting
-    if (n_sessions() != 1) { close(fd); g_worker.poisoned = true; return "harness-no-session-after-connect sessions=" + std::to_string(n_sessions()); }
-    drain(fd);
-    auto ct = conn_token();
-    auto deliver = [&](const std::string &seg) {
-      if (!direct) { if (!seg.empty() && write(fd, seg.data(), seg.size()) != (ssize_t)seg.size()) viol = "harness-short-write"; pump(g_loop); return; }
-      if (n_sessions() != 1) return;                // the service dropped the connection: nothing can be received any more
-      std::string data = pending + seg; if (data.empty()) return;
-      util::Buffer b(data.size()); b.append(data.data(), data.size());      // capacity == content
-      if (g_telnetd) g_telnetd->impl_->onTcpReceived(ct, b); else g_tcprpc->impl_->onTcpReceived(ct, b);
-      pending.assign((const char *)b.readableBegin(), b.readableSize());
-      pump(g_loop);
-    };
-    for (size_t i = 0; i < c.segs.size() && viol.empty(); i++) {
-      std::string seg = c.segs[i];
-      if ((c.flags & F_FILL) && i + 1 == c.segs.size() && !direct) {
-        util::Buffer *rb = server()->getClientReceiveBuffer(ct); size_t room = rb ? rb->writableSize() : 0;
-        if (room >= seg.size() && room <= 4096) seg = std::string(room - seg.size(), 'a') + seg;
-      }
-      deliver(seg);
+  network::TcpServer::ConnToken ct;
+  auto deliver = [&](std::string seg, bool fill) {
+    if (gone || !viol.empty()) return;
+    if (n_sessions() != 1) { gone = true; return; }          // the service ended the session: nothing more can be received
+    if (!direct) {
+      if (fill) { util::Buffer *rb = server()->getClientReceiveBuffer(ct); size_t room = rb ? rb->writableSize() : 0; if (room >= seg.size() && room <= 4096) seg = std::string(room - seg.size(), 'a') + seg; }
+      if (!seg.empty() && write(fd, seg.data(), seg.size()) != (ssize_t)seg.size()) gone = true;   // peer closed
+      return;
     }
-    if (viol.empty() && (c.flags & F_PROBE)) {
-      deliver(RESYNC + "\r\n"); drain(fd); g_calls.clear();
-      deliver("p 7\r\n"); std::string reply = drain(fd);
+    std::string data = pending + seg; if (data.empty()) return;
+    util::Buffer b(data.size()); b.append(data.data(), data.size());      // capacity == content
+    if (g_telnetd) g_telnetd->impl_->onTcpReceived(ct, b); else g_tcprpc->impl_->onTcpReceived(ct, b);
+    pending.assign((const char *)b.readableBegin(), b.readableSize());
+  };
+  // one step per idle point of the loop: the loop has fully digested the previous step (incl. deferred closures)
+  std::vector<std::function<void()>> steps;
+  steps.push_back([&] {                               // accepted: session created, greeting sent
+    if (n_sessions() != 1) { viol = "harness-no-session-after-connect sessions=" + std::to_string(n_sessions()); g_worker.poisoned = true; return; }
+    drain(fd); ct = conn_token(); deliver(c.segs[0], (c.flags & F_FILL) && c.segs.size() == 1); });
+  for (size_t i = 1; i < c.segs.size(); i++) steps.push_back([&, i] { deliver(c.segs[i], (c.flags & F_FILL) && i + 1 == c.segs.size()); });
+  if (c.flags & F_PROBE) {
+    steps.push_back([&] { deliver(RESYNC + "\r\n", false); });
+    steps.push_back([&] { drain(fd); g_calls.clear(); deliver("p 7\r\n", false); });
+    steps.push_back([&] {
+      if (!viol.empty()) return;
+      reply = drain(fd);
       bool called = g_calls.size() == 1 && g_calls[0].size() == 2 && g_calls[0][0] == "p" && g_calls[0][1] == "7";
       if (!called || reply.find("PROBE<7>") == std::string::npos)
-        viol = "session-does-not-answer-probe-after-" + shape + " probe_calls=" + std::to_string(g_calls.size()) + " reply='" + esc(reply.substr(0, 60)) + "' sessions=" + std::to_string(n_sessions());
-    }
-    close(fd); fd = -1;
-    pump(g_loop);                                   // EOF -> session released, connection deleted on the next pass
+        viol = "session-does-not-answer-probe-after-" + shape + " probe_calls=" + std::to_string(g_calls.size()) + " reply='" + esc(reply.substr(0, 60)) + "' sessions=" + std::to_string(n_sessions()); });
+  }
+  steps.push_back([&] { close(fd); fd = -1; });       // EOF -> session released, connection deleted on a later pass
+  try {
+    run_steps(g_loop, steps);
     if (n_sessions() != 0) g_worker.poisoned = true;  // do not carry a leftover session into the next case
   } catch (const std::exception &e) {
-    viol = shape + "-uncaught-exception what=" + e.what(); g_worker.poisoned = true; if (fd >= 0) close(fd);
+    viol = shape + "-uncaught-exception what=" + e.what(); g_worker.poisoned = true;
   }
+  if (fd >= 0) close(fd);
   return viol;
 }
 
@@ -136,7 +140,7 @@ struct Sweep {
       std::string sig = shape_of(fe, c) + "-" + kind; viol = sig + " " + crash;
       if (sig_seen[sig] < 3) { std::string hex; char b[4]; for (unsigned char ch : ser(c)) { snprintf(b, sizeof b, "%02x", ch); hex += b; } viol += " :: " + exec_detail({"--one", fe, mode, hex}); }
     }
-    if (viol.empty()) { outcomes[c.family + ": " + shape_of(fe, c) + " -> harmless, probe answered"]++; if (samples < 3 && c.segs.size() > 1) { samples++; printf("@SAMPLE fe:%s:%s %s %s => probe answered\n", fe.c_str(), mode.c_str(), c.family.c_str(), show(c).c_str()); } return; }
+    if (viol.empty()) { outcomes[c.family + ": " + shape_of(fe, c) + ((c.flags & F_PROBE) ? " -> harmless, probe answered" : " -> harmless, session ended")]++; if (samples < 3 && c.segs.size() > 1) { samples++; printf("@SAMPLE fe:%s:%s %s %s => probe answered\n", fe.c_str(), mode.c_str(), c.family.c_str(), show(c).c_str()); } return; }
     viols++; std::string sig = viol.substr(0, viol.find(' '));
     if (sig_seen[sig]++ < 3) printf("@VIOL sig=%s :: fe=%s mode=%s family=%s segs=%s  [%s]\n", sig.c_str(), fe.c_str(), mode.c_str(), c.family.c_str(), show(c).c_str(), viol.c_str());
   }
@@ -159,6 +163,7 @@ int main(int argc, char **argv) {
   Sweep sw; sw.fe = g_fe = argc > 1 ? argv[1] : "telnetd"; sw.mode = g_mode = argc > 2 ? argv[2] : "sock"; size_t maxlen = argc > 3 ? atoi(argv[3]) : 3;
   sw.shard = argc > 4 ? atol(argv[4]) : 0; sw.nshards = argc > 5 ? atol(argv[5]) : 1; sw.deadline = hx::deadline_from_env(600);
   g_worker.recycle_after = 3000;
+  g_worker.child_cleanup = [] { if (!g_path.empty()) unlink(g_path.c_str()); };
   g_worker.fn = [](const std::string &job) { std::string r = run_case(deser(job)); return r; };
 
   // family "frames": well-formed frames, each prefix truncation, NAWS with a truncated payload, each in every 2-way split;
